@@ -67,7 +67,6 @@ class C04(Prop):
         # three levels per sign are needed for some junction defects (e.g. [500, 200, 400, 100]: a last sample between its
         # predecessor and zero) - found by a prover agent while the scope still had two levels per sign
         scopes = [(LEVELS, 5), (LEVELS7, 4)] if tier == "quick" else [(LEVELS, 6), (LEVELS7, 5)]
-        self.exhaustive = True
         self.stats["exhaustive_scope"] = "; ".join(f"all sequences over {lv} of length 2..{ml} with >= 2 distinct values" for lv, ml in scopes)
         seen = set()
         for lv, maxlen in scopes:
@@ -200,8 +199,6 @@ class C04(Prop):
                         return (f"half-counted (Memory 3) hysteresis in pass {r['run_index'][0]} (sequence {s})", junction_failure_class(s))
                     if r["loads_min"][0] != -r["loads_max"][0] or r["S_min"][0] != -r["S_max"][0] or r["epsilon_min"][0] != -r["epsilon_max"][0]:
                         return (f"Memory-3 hysteresis not symmetric about zero: {r}", "memory3-asymmetric")
-                elif r["run_index"][0] == 2 and not r["is_closed_hysteresis"][0]:
-                    return ("pass-2 hysteresis not full", "pass2-half")
             return None
         # refinement by samples that are not reversals of the repeated sequence
         self.stats["refinements"] += 1
